@@ -490,7 +490,14 @@ func c05R3(p *core.Program, r *core.Report, pl *pipeline) {
 			continue
 		}
 		if (dg != nil && fn == dg.Obj()) || (newFn != nil && fn == newFn.Obj()) || fn.Name() == "IsZero" {
-			if rv := core.VarOf(info, recvOf(c)); rv != ctxVar {
+			rv := core.VarOf(info, recvOf(c))
+			if rv != ctxVar && fn.Name() == "IsZero" {
+				// the context's emptiness test written out: the file's own IsZero on the file of this very context
+				if sel, isSel := ast.Unparen(recvOf(c)).(*ast.SelectorExpr); isSel && core.VarOf(info, sel.X) == ctxVar && core.FieldOf(info, sel) != nil {
+					rv = ctxVar
+				}
+			}
+			if rv != ctxVar {
 				okRecv, what = false, core.ExprStr(c)
 			}
 		}
